@@ -18,12 +18,14 @@ import (
 	"math/rand"
 	"net"
 	"os"
+	"reflect"
 	"runtime"
 	"sort"
 	"strings"
 	"sync"
 	"testing"
 	"testing/synctest"
+	"unsafe"
 
 	"github.com/creachadair/jrpc2"
 )
@@ -240,6 +242,38 @@ func (r *srvRun) handler(ctx context.Context, req *jrpc2.Request) (any, error) {
 	return tag, nil
 }
 
+// logPark is the server's Logger: user code, hence a legitimate scheduling point. It parks only
+// when the server's mutex is free (a goroutine parked while holding it would block the others in a
+// way the bubble cannot see), which on the unchanged tree is the case at a single call site; a
+// change that moves a log call - and with it a window between two critical sections - outside the
+// lock becomes explorable by the scheduler.
+func (r *srvRun) logPark(text string) {
+	srv := r.srv
+	if srv == nil || r.sched == nil {
+		return
+	}
+	mu := mutexOf(srv)
+	if mu == nil || !mu.TryLock() {
+		return
+	}
+	mu.Unlock()
+	r.sched.hook("user.log", firstWords(text, 3), nil)
+}
+
+// mutexOf finds the unexported `mu` field (a sync.Mutex or a pointer to one) of a *Server / *Client.
+func mutexOf(p any) *sync.Mutex {
+	f := reflect.ValueOf(p).Elem().FieldByName("mu")
+	switch {
+	case !f.IsValid():
+		return nil
+	case f.Type() == reflect.TypeOf(&sync.Mutex{}):
+		return (*sync.Mutex)(f.UnsafePointer())
+	case f.Type() == reflect.TypeOf(sync.Mutex{}):
+		return (*sync.Mutex)(unsafe.Pointer(f.UnsafeAddr()))
+	}
+	return nil
+}
+
 type srvMux struct{ r *srvRun }
 
 func (m srvMux) Assign(ctx context.Context, method string) jrpc2.Handler {
@@ -351,7 +385,7 @@ func runServerScenario(t *testing.T, sc *srvScenario, pickFn func(n int) int, sk
 				return nil
 			}
 		}
-		r.srv = jrpc2.NewServer(srvMux{r}, &jrpc2.ServerOptions{Concurrency: sc.Concurrency, AllowPush: sc.AllowPush}).Start(r.sch)
+		r.srv = jrpc2.NewServer(srvMux{r}, &jrpc2.ServerOptions{Concurrency: sc.Concurrency, AllowPush: sc.AllowPush, Logger: r.logPark}).Start(r.sch)
 		nextOp := 0
 		lastSeq := 0
 		reads := 0
